@@ -17,7 +17,10 @@ import (
 	"strings"
 
 	"github.com/indexsupply/shovel/shovel"
+	"github.com/indexsupply/shovel/shovel/config"
 	"github.com/indexsupply/shovel/shovel/web"
+	"github.com/jackc/pgx/v5"
+	"github.com/jackc/pgx/v5/pgconn"
 
 	"verif/harness/fakepg"
 	"verif/harness/model"
@@ -1247,6 +1250,13 @@ func c15Run(c *vk.Case) {
 					}
 				}
 				doc := c15Plant(b.doc, groups, p, s)
+				if s.Hostile && j.lifecycle == "dashboard" && len(p.path) > 0 && p.path[0] == "$dash_integration" {
+					if stmt := c15GateDirect(c, doc); stmt != "" {
+						c.Violate("unvalidated-in-sql:path="+j.class+":dashboard-gate", map[string]any{"position": c15PathString(p.path), "planted": s.value(p.val), "statement": stmt},
+							"the value %q planted at %s passes the dashboard's check of a submitted integration and appears in the text of the statement its destination issues for a reorganisation: %s", s.value(p.val), c15PathString(p.path), firstLines(stmt, 1))
+						continue
+					}
+				}
 				disabled := false
 				if s.Hostile && j.lifecycle == "file" && len(p.path) >= 2 && p.path[0] == "integrations" && g%2 == 0 {
 					// every other position: the integration that carries the hostile string is switched off (kept in the
@@ -1312,4 +1322,58 @@ func c15Run(c *vk.Case) {
 		}
 		_ = controlInSQL
 	}
+}
+
+// sqlRecConn records the text of every statement a destination issues.
+type sqlRecConn struct {
+	recConn
+	texts []string
+}
+
+func (rc *sqlRecConn) Exec(_ context.Context, q string, _ ...any) (pgconn.CommandTag, error) {
+	rc.texts = append(rc.texts, q)
+	return pgconn.CommandTag{}, nil
+}
+
+func (rc *sqlRecConn) QueryRow(_ context.Context, q string, _ ...any) pgx.Row {
+	rc.texts = append(rc.texts, q)
+	return noRow{}
+}
+
+// c15GateDirect: the dashboard stores a submitted integration after config.CheckUserInput alone and the manager
+// builds its destination from the stored value as it is. Whatever passes that gate must not show up in the text of
+// the statements the destination issues on its own (the unwind of a reorganisation; inserts go through COPY with
+// sanitised identifiers, reference lookups are exercised by the lifecycle). Returns the offending statement.
+func c15GateDirect(c *vk.Case, doc map[string]any) (offending string) {
+	defer func() {
+		if r := recover(); r != nil {
+			c.Seen("panics_outside_statement", "dashboard-gate-direct|"+fmt.Sprint(r))
+		}
+	}()
+	raw, err := json.Marshal(doc["$dash_integration"])
+	if err != nil {
+		return ""
+	}
+	var ig config.Integration
+	if json.Unmarshal(raw, &ig) != nil {
+		return ""
+	}
+	c.Obs("dashboard_gate_direct_submissions", 1)
+	if config.CheckUserInput(config.Root{Integrations: []config.Integration{ig}}) != nil {
+		c.Obs("dashboard_gate_direct_rejected", 1)
+		return ""
+	}
+	dest, err := shovel.NewDestination(ig)
+	if err != nil {
+		return ""
+	}
+	rc := &sqlRecConn{}
+	dest.Delete(context.Background(), rc, 7)
+	c.Obs("dashboard_gate_direct_deletes", 1)
+	for _, t := range rc.texts {
+		if strings.Contains(t, c15Mark) {
+			return t
+		}
+	}
+	return ""
 }
